@@ -77,6 +77,16 @@ def gen(rng, tier):
                 toks += [streamfam.tok_push(rng, 3 + j, j % 3, j % 4), "D"]
             line = "sstream %s %s %s %s %s %s" % (api, hx(key), hx(hdr), ctr, ctr, " ".join(toks))
             cs.append(Case(line, cls="stream-pull/counter-wrap", expect=streamfam.expect_history(line), meta={"why": "authentic messages across the 32-bit counter wrap (start %s)" % ctr}))
+    # E16: message lengths around the key-stream capacity of the ChaCha20 implementation (64·(2³²−3) bytes, ≈ 256 GiB).  The runner
+    # builds the buffers as virtual ranges aliasing one 1 GiB memory object (harness/src/ops_huge.rs), so the call really runs.
+    # Ok or Err, never a panic.  With the guard of E16 in place these return at once; without it push takes ≈ 2 min and panics.
+    for L in (64 * (2 ** 32 - 3) + 1, 64 * (2 ** 32 - 3) + 32, 64 * (2 ** 32 - 2), 64 * (2 ** 32 - 2) + 1, 2 ** 39):
+        cs.append(Case("stream_huge push %d" % L, cls="stream-huge/push", expect=totality,
+                       meta={"no_sodium": True, "no_spec": True, "alloc_bound": 1 << 20, "why": "push of a %d-byte message (aliased buffers) must be Ok or Err" % L}))
+    if tier == "thorough":
+        # an honest libsodium sender's message of the smallest critical length, opened by dryoc (libsodium's push over 256 GiB: minutes)
+        cs.append(Case("stream_huge pull %d" % (64 * (2 ** 32 - 3) + 1), cls="stream-huge/pull", expect=totality,
+                       meta={"no_sodium": True, "no_spec": True, "alloc_bound": 1 << 20, "why": "pull of an authentic 256 GiB message made by libsodium must be Ok or Err"}))
     if signfam:
         cs += signfam.c04_cases(rng, tier)
     if pwfam:
